@@ -16,9 +16,10 @@ from hypothesis import strategies as st
 
 from vlib import gen, ref, sut
 
-RC = ["1", "2", "3", "4"]
-HINTS = ["501", "502"]
-FCS = ["901", "902"]
+# small pools made of the borders of the key ranges (1-499 / 2000-2499, 500-900, 901-999)
+RC = ["1", "499", "2000", "2499"]
+HINTS = ["500", "900"]
+FCS = ["901", "999"]
 POOLS = {"rc": RC, "hint": HINTS, "fc": FCS}
 PACKAGES = ["1P", "7P"]
 QUALIFIERS = ["A", "B", "C", "Z1", "9", "E01"]
@@ -258,17 +259,22 @@ def combine(parent, child):
 
 
 def offered(pool, assignment):
-    """qualifiers whose own expression is fulfilled (a single-entry pool always offers its entry), in pool order"""
+    """
+    qualifiers whose own expression is fulfilled (a single-entry pool always offers its entry), in pool order.
+    A qualifier that occurs more than once (maus allows that, e.g. after DataElementValuePool.replace_value_pool) is
+    offered if one of its entries is fulfilled and is listed once.
+    """
     if len(pool) == 1:
         return [pool[0]["q"]]
     out = []
     for entry in pool:
         expr = entry["expr"]
         if expr.get("fault"):
-            out.append(entry["q"])  # C16: an invalid entry is treated as selectable
-            continue
-        index = ref.select_part(expr["parts"], assignment)
-        if ref.part_fulfilled(expr["parts"][index][1], assignment) is True:
+            fulfilled = True  # C16: an invalid entry is treated as selectable
+        else:
+            index = ref.select_part(expr["parts"], assignment)
+            fulfilled = ref.part_fulfilled(expr["parts"][index][1], assignment) is True
+        if fulfilled and entry["q"] not in out:
             out.append(entry["q"])
     return out
 
